@@ -111,6 +111,13 @@ var c12Actions = []struct {
 	{"division-by-zero", "fnum % 0.25", true, ""},
 	{"nil-deref", "fembnil.PName", true, ""},
 	{"nil-deref", "fuser.Friend.Name", true, ""},
+	{"index-range", "qv, qok := fxs[9]", true, ""},
+	{"index-range", "if qv, qok := fxs[9]; qok }}x{{ end", true, ""},
+	{"index-kind", `qv, qok := fxs["a"]`, true, ""},
+	{"index-kind", "qv, qok := fnum[0]", true, ""},
+	{"index-kind", "qv, qok := fmap[fxs]", true, ""},
+	{"unknown-field", `qv, qok := fuser["NoSuchField"]`, true, ""},
+	{"nil-deref", `qv, qok := fembnil["PName"]`, true, ""},
 	{"function-error", `failfn("boom")`, false, ""},
 	{"function-error", `"boom" | failfn`, false, ""},
 	{"function-error", `exec("/no/such/template.jet")`, false, ""},
@@ -194,6 +201,18 @@ func genC12(t *rapid.T) c12Case {
 	d := mj.Recipe{T: "user", S: "ctxuser"}
 	g.p.Data = &d
 	a := c12Actions[g.n(0, len(c12Actions)-1, "action")]
+	if g.n(0, 7, "nilContext") == 0 {
+		// Execute without a context, right after a successful execution of another template that had one
+		// with these members: a field or method of '.' is an error, whatever ran before
+		g.p.Data = nil
+		a.class, a.src, a.pos, a.partial = "nil-context", []string{".Name", ".Greeting()", ".Friend.Name", "len(.Tags)"}[g.n(0, 3, "nilCtxAction")], true, ""
+		if a.src == "len(.Tags)" {
+			a.pos = false
+		}
+		pd := mj.Recipe{T: "user", S: "prioruser"}
+		g.p.PriorEntry, g.p.PriorData = "/prior.jet", &pd
+		g.labels["nil-context-after-execution-with-context"] = true
+	}
 	fail := &mj.Node{K: "fail", Src: a.src, Class: a.class, Partial: a.partial, TrimL: g.n(0, 3, "ftl") == 0, TrimR: g.n(0, 3, "ftr") == 0}
 	depth := g.n(0, 3, "depth")
 	core := g.nest(depth, []*mj.Node{mj.Text(g.id("before-on-same-line ")), fail, mj.Text(" after-on-same-line")})
@@ -207,6 +226,9 @@ func genC12(t *rapid.T) c12Case {
 	}}
 	main := &mj.File{Path: "/main.jet", Imports: []string{"/lib/blocks.jet"}}
 	g.p.Files = []*mj.File{main, lib}
+	if g.p.PriorEntry != "" {
+		g.p.Files = append(g.p.Files, &mj.File{Path: "/prior.jet", Body: []*mj.Node{mj.Text("prior "), mj.Print(mj.Field("Name"))}})
+	}
 	role := []string{"main", "included", "imported-block", "layout-root", "leaf-block"}[g.n(0, 4, "role")]
 	switch role {
 	case "main":
